@@ -240,7 +240,7 @@ fn scale_tasks(ts: &mut [TaskSpec], f: u64) {
 
 fn uni_prog(tier: Tier) -> BoxedStrategy<Prog> {
     let g = TaskGen {
-        arr: ArrGen { tmax: tier.pick(40, 80), never: true, plateau_end: true, plain_curves: true, derived: true, acp: true, loose: true, depth: 2 },
+        arr: ArrGen { tmax: tier.pick(40, 80), never: true, plateau_end: true, plain_curves: true, derived: true, acp: true, loose: true, poisson: false, depth: 2 },
         cmax: 8,
         nmax: 4,
         dfac: 3,
@@ -339,7 +339,7 @@ fn prog_strategy(tier: Tier) -> BoxedStrategy<Prog> {
         5 => (prop_oneof![6 => arr_strategy(full_gen(tier.pick(40, 80))), 1 => trace_arr], proptest::collection::vec(arr_q, 1..6))
             .prop_map(|(spec, mut queries)| {
                 // lazily extrapolated curves do quadratic work in the queried length: keep it moderate
-                let lazy = spec.any(&|x| matches!(x, ArrSpec::Curve { extrapolating: true, .. } | ArrSpec::FromTrace { extrapolating: true, .. } | ArrSpec::CurveFromIter { extrapolating: true, .. }));
+                let lazy = spec.any(&|x| matches!(x, ArrSpec::Curve { extrapolating: true, .. } | ArrSpec::FromTrace { extrapolating: true, .. } | ArrSpec::CurveFromIter { extrapolating: true, .. } | ArrSpec::Poisson { .. }));
                 let cap = if lazy { 3000 } else { u64::MAX };
                 for q in queries.iter_mut() {
                     match q {
@@ -365,6 +365,54 @@ fn prog_strategy(tier: Tier) -> BoxedStrategy<Prog> {
             .prop_map(|(arr, cost, deltas, limits)| Prog::Rbf { arr, cost, deltas, limits }),
     ]
     .boxed()
+}
+
+pub fn decode(d: &mut crate::dec::Dec) -> Prog {
+    use crate::dec::*;
+    let full = DecArr { tmax: 40, never: true, derived: true, acp: true };
+    match d.pick(6) {
+        0 | 1 | 2 => {
+            let mut tasks = dec_tasks(d, full, 4, 8);
+            let tua = d.pick(tasks.len());
+            let analysis = ALL_ANALYSES[d.pick(9)];
+            let blocking = if d.flag() { Some(d.range(0, 9)) } else { None };
+            let (limit, scale, adj) = match d.pick(6) {
+                0 | 1 | 2 => (d.range(1, 399), 1u64, 0i64),
+                3 => (3000, 1, 0),
+                4 => (100, 1000, d.range(0, 2) as i64 - 1),
+                _ => (d.range(101, 399), 1000, 0),
+            };
+            let (limit, blocking) = if scale > 1 {
+                scale_tasks(&mut tasks, scale);
+                (((limit * scale) as i64 + adj) as u64, blocking.map(|b| b * scale))
+            } else {
+                (limit, blocking)
+            };
+            let wrap = [Wrap::Plain, Wrap::Boxed, Wrap::Refs][d.pick(3)];
+            Prog::Uni { tasks, tua, analysis, blocking, limit, wrap }
+        }
+        3 => {
+            let case = c07::decode19(d);
+            let sel = d.byte();
+            Prog::Ros19 { case: with_never19(case, sel), limit: d.range(1, 3000) }
+        }
+        4 => {
+            let case = c07::decode21(d);
+            let sel = d.byte();
+            Prog::Ros21 { case: with_never21(case, sel), limit: d.range(1, 3000) }
+        }
+        _ => {
+            let spec = dec_arr(d, full, 3);
+            let lazy = spec.any(&|x| matches!(x, ArrSpec::Curve { extrapolating: true, .. }));
+            let queries = d.vec(1, 5, |d| match d.pick(5) {
+                0 | 1 => ArrQuery::Arrivals(if lazy { d.range(0, 3000) } else { d.range(0, 2_000_000_000) }),
+                2 => ArrQuery::Steps(d.pick(40)),
+                3 => ArrQuery::DeltaMin(d.pick(20)),
+                _ => ArrQuery::JitterThenArrivals(d.range(0, 99), d.range(0, 299)),
+            });
+            Prog::Arr { spec, queries }
+        }
+    }
 }
 
 // --- the check -----------------------------------------------------------------------
@@ -498,7 +546,7 @@ pub fn def() -> PropertyDef {
             "well-formed inputs: periods, budgets, WCETs >= 1, segments within the WCET, budget <= deadline <= period, delta-min prefixes ending with a positive distance, limits >= 1, subchains drawn from the workload, time values <= ~4*10^9".into(),
             "both builds are the same harness at opt-level 3; they differ in debug-assertions and overflow-checks only".into(),
         ],
-        subchecks: vec![subcheck("programs", (1500, 60_000), prog_strategy, check)],
+        subchecks: vec![subcheck("programs", (1500, 60_000), prog_strategy, check).with_decoder(decode, check)],
         extra: None,
     }
 }
